@@ -141,7 +141,9 @@ size_t svalue_save_size (const svalue_t * v) {
       {
         char buf[256];
         sprintf (buf, "%g", v->u.real);
-        return strlen (buf) + 3; /* 1 for comma/colon, 2 for ".0" of integral values */
+        /* 1 for comma/colon, 2 for the ".0" that save_svalue appends to integral values (and only to them:
+         * the size must be exact, it becomes the length of the string save_variable returns) */
+        return strlen (buf) + (strpbrk (buf, ".eEna") ? 1 : 3);
       }
 
     default:
